@@ -8,7 +8,7 @@ from ..core import Report
 from ..ctx import sites
 from ..frontend import Repo
 from ..model import is_subscribe_call
-from ..rules import has_guard
+from ..rules import cell_name, has_guard, locals_by_init, names_assigned_const, names_augmented
 from . import typestate_common as TC
 
 MG = "reactivex/operators/_merge.py"
@@ -41,16 +41,28 @@ def check(repo: Repo, rep: Report) -> None:
         TC.check_operator(repo, rep, "K1-signature", key,
                           lambda k, slot: "Merging must pass inner elements and the first error straight through and complete only "
                                           "from the completion-join paths.")
-    for name, count_pred in (("merge_", lambda t: "active_count" in t), ("merge_all_", lambda t: "len(group)" in t)):
+    for name in ("merge_", "merge_all_"):
         root = repo.fn(MG, f"{name}.subscribe")
+        outer = root.child("on_completed")
+        rep.require(outer is not None, f"{name}.subscribe.on_completed")
+        # roles: the stopped flag is the cell the outer on_completed sets True; the active measure is the integer cell
+        # the element handler increments (merge_) or the size of the CompositeDisposable holding the inners (merge_all_)
+        flags = names_assigned_const(outer, True)
+        counters = [c for g in root.walk() if g.is_func for c in names_augmented(g, ast.Add)]
+        groups = locals_by_init(root, lambda v: isinstance(v, ast.Call) and call_name(v) == "CompositeDisposable")
+        rep.require(bool(flags) and bool(counters or groups), f"{name}: stopped flag / active measure")
+        def count_pred(t, counters=counters, groups=groups, name=name):
+            if name == "merge_":
+                return any(c in t for c in counters)
+            return any(f"len({g})" in t for g in groups)
         for g, s, k in TC.downstream_sites(root, ("on_completed",)):
             gt = TC.guards_text(s)
-            stopped = any("is_stopped" in t and not t.startswith("not") for t in gt)
+            stopped = any(any(fl in t for fl in flags) and not t.startswith("not") for t in gt)
             counted = any(count_pred(t) for t in gt)
             inner = g.parent is not root and g is not root
             is_outer = g.parent is root and g.name == "on_completed"
             if is_outer:
-                sets = any(isinstance(x.node, ast.Assign) and "is_stopped" in u(x.node.targets[0]) and u(x.node.value) == "True"
+                sets = any(isinstance(x.node, ast.Assign) and cell_name(x.node.targets[0]) in flags and u(x.node.value) == "True"
                            and x.index < s.index for x in sites(g))
                 rep.ob("J1-completion-join", g, f"{name} outer on_completed: {gt}", counted and sets,
                        f"{name}: the outer's completion completes downstream without checking that no inner is active (or does "
@@ -65,30 +77,36 @@ def check(repo: Repo, rep: Report) -> None:
     helper = root.child("subscribe")
     rep.require(on_next is not None and helper is not None, "merge_.subscribe.on_next / inner subscribe helper")
     calls = [s for s in sites(on_next) if isinstance(s.node, ast.Call) and isinstance(s.node.func, ast.Name) and s.node.func.id == "subscribe"]
+    counters = names_augmented(on_next, ast.Add)
+    queues = [q for q in locals_by_init(root, lambda v: isinstance(v, ast.List) and not v.elts)
+              if any(isinstance(x.node, ast.Call) and dotted(x.node.func) == f"{q}.append" for x in sites(on_next))]
+    rep.require(len(counters) == 1 and len(queues) == 1, "merge_: active counter / waiting queue")
+    cnt, queue = counters[0], queues[0]
+    is_cnt = lambda x: cell_name(x) == cnt
     ok = False
     for s in calls:
         for e, p in s.ctx.guards:
-            r = compare_norm(e, lambda x: "active_count" in u(x))
+            r = compare_norm(e, is_cnt)
             if p and r and r[0] == "<" and u(r[1]) == "max_concurrent":
                 ok = True
-    inc = [s for s in sites(on_next) if isinstance(s.node, ast.AugAssign) and "active_count" in u(s.node.target) and isinstance(s.node.op, ast.Add)]
+    inc = [s for s in sites(on_next) if isinstance(s.node, ast.AugAssign) and is_cnt(s.node.target) and isinstance(s.node.op, ast.Add)]
     rep.ob("J2-max-concurrent", on_next, "subscribe(inner) only under active_count < max_concurrent (and count it)", ok and len(calls) == 1 and bool(inc)
            and inc[0].ctx.branch == calls[0].ctx.branch, "more than max_concurrent inner sequences can be subscribed at once")
-    enq = [s for s in sites(on_next) if isinstance(s.node, ast.Call) and dotted(s.node.func) == "queue.append"]
+    enq = [s for s in sites(on_next) if isinstance(s.node, ast.Call) and dotted(s.node.func) == f"{queue}.append"]
     ok = False
     for e, p in (enq[0].ctx.guards if enq else ()):
-        r = compare_norm(e, lambda x: "active_count" in u(x))
+        r = compare_norm(e, is_cnt)
         if r and u(r[1]) == "max_concurrent" and ((p and r[0] in (">=", ">")) or (not p and r[0] in ("<", "<="))):
             ok = True
     rep.ob("J2-max-concurrent", on_next, "otherwise the inner is queued", ok, "an inner arriving while the limit is reached is dropped or subscribed")
     ioc = helper.child("on_completed")
-    pops = [s for s in sites(ioc) if isinstance(s.node, ast.Call) and isinstance(s.node.func, ast.Attribute) and dotted(s.node.func.value) == "queue"
+    pops = [s for s in sites(ioc) if isinstance(s.node, ast.Call) and isinstance(s.node.func, ast.Attribute) and dotted(s.node.func.value) == queue
             and s.node.func.attr in ("pop", "popleft")]
-    ok = len(pops) == 1 and (pops[0].node.func.attr == "popleft" or [u(a) for a in pops[0].node.args] == ["0"]) and has_guard(pops[0].ctx, "queue", True)
+    ok = len(pops) == 1 and (pops[0].node.func.attr == "popleft" or [u(a) for a in pops[0].node.args] == ["0"]) and has_guard(pops[0].ctx, queue, True)
     rep.ob("J2-max-concurrent", ioc, "a completing inner starts the oldest queued inner", ok,
            "queued inner sequences are not started first-in-first-out (concat_map would reorder its inners)")
-    dec = [s for s in sites(ioc) if isinstance(s.node, ast.AugAssign) and "active_count" in u(s.node.target) and isinstance(s.node.op, ast.Sub)]
-    ok = len(dec) == 1 and has_guard(dec[0].ctx, "queue", False)
+    dec = [s for s in sites(ioc) if isinstance(s.node, ast.AugAssign) and is_cnt(s.node.target) and isinstance(s.node.op, ast.Sub)]
+    ok = len(dec) == 1 and has_guard(dec[0].ctx, queue, False)
     rep.ob("J2-max-concurrent", ioc, "the active count drops only when nothing is queued", ok,
            "the active count is decremented although a queued inner takes the slot (the limit drifts)")
     TC.composite_uses(repo, rep, "J3-delegations", COMPOSITES)
